@@ -763,7 +763,9 @@ func main() {
 	}
 	sum.Rule = "inputs: fixed boundary corpus (every keyword, every token, deep nesting around the depth limits, nested comments, " +
 		"string templates, huge literals, invalid UTF-8, multi-byte runes) + grammar-generated programs + mutations of them (token " +
-		"insert/delete/duplicate/swap, truncation, byte flips, invalid UTF-8 and multi-byte insertion) + random token soup + random bytes. " +
+		"insert/delete/duplicate/swap, truncation, byte flips, invalid UTF-8 and multi-byte insertion) + random token soup + random bytes " +
+		"+ a systematic recovery stream (for every token position of exemplar programs covering every grammar production: truncation, replacement of the " +
+		"next construct by each closer/separator/keyword, `= <junk>` inserted; parse/check monitor only). " +
 		"Each input is lexed twice through the pool after different dirty predecessors (token streams must be identical), checked by a Go oracle " +
 		"(tiling, ranges, line/column from the byte offset), parsed and (if accepted) checked; inputs up to 400 bytes also go to the Coq lexer model. " +
 		"non-trivial = input has a non-ASCII byte, more than one line, or a lexer error token; distinct = distinct source text"
@@ -795,6 +797,20 @@ func main() {
 		base := pool[st.rng.Intn(len(pool))]
 		m := mutate(st.rng, base)
 		st.process(m, "mutated", i%2 == 0)
+	}
+	// 2b. systematic recovery stream derived from the exemplar programs (and, thorough tier, from generated ones)
+	st.recoveryStream(exemplarPrograms(), 1)
+	if *tier == "thorough" {
+		var small []string
+		for _, b := range pool {
+			if len(b) < 500 {
+				small = append(small, string(b))
+			}
+			if len(small) >= 150 {
+				break
+			}
+		}
+		st.recoveryStream(small, 3)
 	}
 	// 3. token soup and random bytes
 	for i := 0; i < nSoup; i++ {
